@@ -170,7 +170,11 @@ func cmdLed(args []string) error {
 		if err != nil {
 			return err
 		}
+		silent := 0
 		for _, walk := range b.Walks {
+			if silent >= 3 {
+				break // feedback keeps falling silent in this batch: three recorded lives are enough
+			}
 			ctrl := b.Ctrl
 			if ctrl == "" {
 				ctrl = "verif keyboard"
@@ -217,6 +221,10 @@ func cmdLed(args []string) error {
 			}
 			enc.Encode(start)
 			alive := true
+			// MIDI-input messages as handed to the device: the fan-out hands the SAME message to every device, so a device
+			// must leave it as it is
+			var inRef []midi.Event
+			var inCopy [][]byte
 			for _, st := range walk {
 				var res ledOut
 				n0 := srv.frameCount()
@@ -228,6 +236,7 @@ func cmdLed(args []string) error {
 					}
 					res.stepOut = stepOut{Ev: "midiin", O: [][]int{}}
 					res.MsgIn = st.Msg
+					inRef, inCopy = append(inRef, msg), append(inCopy, append([]byte(nil), msg...))
 					ms := []midi.Event{msg, {midi.TimingClock}} // the second send returns once the first is processed
 					if b.AsyncMidi || b.Flood {
 						ms = ms[:1]
@@ -288,12 +297,26 @@ func cmdLed(args []string) error {
 				}
 				res.NFrames = srv.frameCount()
 				enc.Encode(res)
+				if st.Ev != "disconnect" && !b.NoWait && !res.LedActive && b.Server == "" {
+					// no frame within two seconds although feedback was running: recorded (the step's led_active is false);
+					// the rest of this life would only wait two seconds per step
+					silent++
+					break
+				}
 				if !alive {
 					break
 				}
 			}
 			if alive {
 				r.finish()
+			}
+			for i, m := range inRef {
+				if string(m) != string(inCopy[i]) {
+					enc.Encode(ledOut{stepOut: stepOut{Ev: "crash", O: [][]int{}, Msg: fmt.Sprintf(
+						"the device modified a MIDI-input message it was handed (shared with every other device): %x became %x", inCopy[i], []byte(m))},
+						Frame: [][3]int{}})
+					break
+				}
 			}
 			srv.Close()
 		}
